@@ -732,6 +732,9 @@ func c38ValidHeaderValue(v string) bool {
 // raw serves one request without oracle (seeding / helper requests).
 func (x *c38Exec) raw(q c38Req) *c38Resp {
 	target := q.target()
+	if os.Getenv("C38_TRACE") != "" {
+		fmt.Fprintf(os.Stderr, "TRACE seq=%d %s %s body=%s\n", x.seq, q.Method, c38Trunc(target, 100), c38Trunc(string(q.Body), 120))
+	}
 	if u, err := url.ParseRequestURI(target); err != nil || u == nil || strings.ContainsAny(target, " \x00\r\n\t") {
 		return &c38Resp{Unbuildable: "target not a valid request URI"}
 	}
